@@ -52,7 +52,7 @@ v("c10-sort-noguard","C10","qframe.go","func (qf QFrame) Sort(orders ...Order) Q
 v("c10-len-zero","C10","qframe.go","	if qf.Err != nil {\n		return -1\n	}","	if qf.Err != nil {\n		return 0\n	}","R20")
 v("c10-table-nocommaok","C10","internal/fcolumn/column.go","		compFunc, ok := filterFuncs1[comparator]\n		if !ok {\n			return qerrors.New(\"filter float\", \"invalid comparison operator to single argument filter, %v\", comparator)\n		}\n		compFunc(index, c.data, t, bIndex)","		compFunc := filterFuncs1[comparator]\n		compFunc(index, c.data, t, bIndex)","R21")
 # C11
-v("c11-global-buf","C11","internal/strings/match.go","func (m *CIExactMatcher) Matches(s string) bool {\n	return ToUpper(&m.buf, s) == m.matchString\n}","var sharedBuf []byte\n\nfunc (m *CIExactMatcher) Matches(s string) bool {\n	return ToUpper(&sharedBuf, s) == m.matchString\n}","R1")
+v("c11-global-buf","C11","internal/strings/match.go","func (m *CIExactMatcher) Matches(s string) bool {\n	return ToUpper(&m.buf, s) == m.matchString\n}","var sharedBuf []byte\n\nfunc (m *CIExactMatcher) Matches(s string) bool {\n	return ToUpper(&sharedBuf, s) == m.matchString\n}","R2")
 # C12/C15
 v("c15-more-nil","C15","internal/fastcsv/csv.go","	b.data = b.data[:len(b.data)+n]\n	return err\n}","	b.data = b.data[:len(b.data)+n]\n	_ = err\n	return nil\n}","R24")
 v("c15-tojson-dropwrite","C15","qframe.go","		_, err = writer.Write(jsonBuf)\n		if err != nil {\n			return err\n		}\n	}\n\n	_, err = writer.Write([]byte{']'})","		writer.Write(jsonBuf)\n	}\n\n	_, err = writer.Write([]byte{']'})","R31")
